@@ -3,7 +3,7 @@
    specification: Spec/XsdDates.v (XSD 1.1 lexical spaces, Gregorian calendar, timeline). *)
 From Coq Require Import NArith ZArith List Bool.
 From XV Require Import Base.Str Model.Dates Model.DatesCorr Spec.XsdDates
-  Proofs.DatesCal Proofs.DatesParse Proofs.DatesFormat Proofs.DatesOrder.
+  Proofs.DatesCal Proofs.DatesParse Proofs.DatesFormat Proofs.DatesOrder Proofs.DatesDuration.
 Import ListNotations.
 Open Scope Z_scope.
 
@@ -33,6 +33,16 @@ Theorem C06_datetime_accepts_xsd : forall sp a b,
             (dts_hour sp) (dts_minute sp) (dts_second sp) (val_frac (dts_frac sp)) (val_tz (dts_tz sp))).
 Proof. exact datetime_accepts. Qed.
 Print Assumptions C06_datetime_accepts_xsd.
+
+(* 1b. every xs:duration lexical form is accepted with the components XSD assigns (the seconds as
+       their decimal text; turning that text into a float is CPython's float()) *)
+Theorem C06_duration_accepts_xsd : forall d,
+  wf_duration d = true -> digits_fit d ->
+  duration_parse (lex_duration d)
+  = Some (mk_xduration (du_sp_neg d) (val_comp (du_sp_y d)) (val_comp (du_sp_mo d)) (val_comp (du_sp_d d))
+            (val_comp (du_sp_h d)) (val_comp (du_sp_mi d)) (secs_text (du_sp_s d))).
+Proof. exact duration_accepts. Qed.
+Print Assumptions C06_duration_accepts_xsd.
 
 (* 2. formatting a valid value gives the canonical XSD spelling of that value *)
 Theorem C06_date_str_valid : forall v, valid_date_value v = true ->
